@@ -18,12 +18,12 @@ use std::sync::{Arc, Mutex};
 use std::time::{SystemTime, UNIX_EPOCH};
 
 /// The network names behind the specification's n1, n2, n3: distinct names that are as close
-/// to each other as names get (one separator character apart).
+/// to each other as names get (one separator character apart, and one contained in the others).
 fn cn(n: &str) -> String {
     match n {
         "n1" => "test_net".to_owned(),
         "n2" => "test-net".to_owned(),
-        "n3" => "testnet".to_owned(),
+        "n3" => "net".to_owned(),       // a substring of the other two
         other => other.to_owned(),
     }
 }
@@ -32,8 +32,32 @@ fn seed_of(k: &str) -> [u8; 32] {
     match k {
         "X" => [11u8; 32],
         "Y" => [22u8; 32],
-        _ => [33u8; 32],
+        _ => adversary_seed(),
     }
+}
+
+/// The adversary grinds its key: among many key pairs of its own it uses one whose identity agrees
+/// with X's under cheap digests of the 32 bytes (XOR of all bytes, sum of all bytes), which is what a
+/// sloppy comparison of identities might look at. It still does not hold X's key.
+fn adversary_seed() -> [u8; 32] {
+    static SEED: std::sync::OnceLock<[u8; 32]> = std::sync::OnceLock::new();
+    *SEED.get_or_init(|| {
+        let fold = |id: &PeerId| (id.0.iter().fold(0u8, |a, b| a ^ b), id.0.iter().fold(0u8, |a, b| a.wrapping_add(*b)));
+        let want = fold(&sim::peer_id_of(&[11u8; 32]));
+        let mut seed = [33u8; 32];
+        let mut best = seed;
+        for n in 0u32..400_000 {
+            seed[..4].copy_from_slice(&n.to_le_bytes());
+            let got = fold(&sim::peer_id_of(&seed));
+            if got.0 == want.0 {
+                best = seed;
+                if got.1 == want.1 {
+                    break;
+                }
+            }
+        }
+        best
+    })
 }
 
 /// the DER bytes for a symbolic certificate record
